@@ -611,6 +611,45 @@ fn handle(w: &mut World, cap: &mut Capture, line: &str) -> String {
             let errs = outp.stderr.iter().filter(|b| **b == b'\n').count();
             format!("(repl out={} errs={})", hex_encode(body), errs)
         }
+        "RUNBIN" => {
+            // the built binary on a program file of the scratch tree, from another working directory
+            let bin = std::env::var("RUSCHM_BIN").unwrap_or_else(|_| "/verif/.cache/ruschm-target/debug/ruschm".to_string());
+            let dir = hex_str(words[1]);
+            let file = hex_str(words[2]);
+            let path = file_path(w, &dir, &[file]);
+            let elsewhere = w.root.join("elsewhere");
+            std::fs::create_dir_all(&elsewhere).unwrap();
+            let outp = std::process::Command::new(bin)
+                .arg(&path)
+                .current_dir(&elsewhere)
+                .stdin(std::process::Stdio::null())
+                .output()
+                .unwrap();
+            let status = outp.status.code().unwrap_or(-99);
+            // strip ANSI colour sequences
+            let raw = String::from_utf8_lossy(&outp.stderr).to_string();
+            let mut err = String::new();
+            let mut it = raw.chars().peekable();
+            while let Some(ch) = it.next() {
+                if ch == '\u{1b}' {
+                    while let Some(x) = it.next() { if x == 'm' { break; } }
+                } else { err.push(ch); }
+            }
+            let p = path.to_string_lossy().to_string();
+            let diag = if err.trim().is_empty() { "none".to_string() }
+                else if let Some(rest) = err.strip_prefix(&p) {
+                    // FILE:LINE:COL  MESSAGE   or   FILE  MESSAGE
+                    if rest.starts_with(':') {
+                        let mut parts = rest[1..].splitn(3, |c: char| c == ':' || c == ' ');
+                        let l = parts.next().unwrap_or("?");
+                        let c = parts.next().unwrap_or("?");
+                        format!("{}:{}", l, c)
+                    } else { "-".to_string() }
+                } else { format!("(unexpected {})", hexs(&err)) };
+            let nl = err.matches('\n').count();
+            let diag = if nl > 1 && status != 101 { format!("{}+{}lines", diag, nl) } else { diag };
+            format!("(run out={} status={} diag={})", hex_encode(&outp.stdout), status, diag)
+        }
         "BRACKET" => show_bool(ruschm::repl::verif_check_bracket_closed(&hex_str(words[1]))),
         other => panic!("bad line {}", other),
     }
